@@ -224,10 +224,12 @@ func sendPacket(l *NDNLPLinkService, out dispatch.OutPkt) {
 		fragments = []*spec.LpPacket{{Fragment: enc.Wire{wire}}}
 	}
 
-	// Sequence
+	// Sequence, FragIndex and FragCount
 	if len(fragments) > 1 {
-		for _, fragment := range fragments {
+		for i, fragment := range fragments {
 			fragment.Sequence = utils.IdPtr(l.nextSequence)
+			fragment.FragIndex = utils.IdPtr(uint64(i))
+			fragment.FragCount = utils.IdPtr(uint64(len(fragments)))
 			l.nextSequence++
 		}
 	}
